@@ -172,3 +172,161 @@ Print Assumptions C01_ranges_result.
 Theorem C01_hash_ok_inhabited : exists HO, hash_ok HO.
 Proof. exact hash_ok_inhabited. Qed.
 Print Assumptions C01_hash_ok_inhabited.
+
+(* ======== End-to-end composition (proofs in Proofs/E2EGlue.v, E2EDecode.v, E2ERanges.v) ========
+   The interface hypotheses of Parts 1-2 are discharged: the plan tree is spec_tree HO data bs q
+   (Props/Bridge.v), the plan iterator yields its plan (Props/C15.v) and ends within its length < 2^64. *)
+From BaoV Require Import Spec.RangeSpec Spec.PlanSpec Proofs.BridgeLeaves Proofs.E2EGlue Proofs.E2EDecode Proofs.E2ERanges.
+
+(* A. the missing glue: the response iterator of a well-formed query is exhausted after exactly the items
+   of the recursive plan, fewer than 2^64 *)
+Theorem C01_response_ends_within : forall (size bs : N) (q : ranges),
+  (size <= 2 ^ 63)%N -> (bs <= 10)%N -> wf_ranges q = true ->
+  let n := length (pre_plan size 0 bs q) in
+  ends_within response_next (response_new (mkTree size bs) q) n /\ (N.of_nat n < 2 ^ 64)%N.
+Proof. exact response_ends_within. Qed.
+Print Assumptions C01_response_ends_within.
+
+(* flat (Spec/EncSpec.v) and flat_items (Spec/PTree.v) are the same function *)
+Theorem C01_flat_is_flat_items : forall HO (l : list (item HO)), flat HO l = flat_items HO l.
+Proof. exact flat_flat_items. Qed.
+Print Assumptions C01_flat_is_flat_items.
+
+(* B. the decoders set up for (root hash of the blob, tree of the blob, q), on EVERY stream:
+   only a prefix of the honest encoding is ever yielded; Finished means all of it was yielded and the
+   stream starts with the honest bytes; an error means the stream departs from the honest bytes inside
+   the next item; no panic, no fuel exhaustion *)
+Theorem C01_e2e_sync : forall HO, hash_ok HO ->
+  forall (data : bytes HO) (bs : N) (q : ranges),
+  (blen HO data <= 2 ^ 63)%N -> (bs <= 10)%N -> wf_ranges q = true -> q <> [] ->
+  forall (stream : bytes HO) ys o st,
+  dec_run HO (dec_new HO (root_hash HO data) (mkTree (blen HO data) bs) stream q) = (ys, o, st) ->
+  is_prefix ys (honest HO data bs q) /\
+  (o = Finished -> ys = honest HO data bs q /\ stream = flat HO (honest HO data bs q) ++ d_enc HO st) /\
+  (forall e, o = Failed e ->
+     ~ is_prefix (flat HO (firstn (length ys + 1) (honest HO data bs q))) stream) /\
+  o <> Panicked /\ o <> OutOfFuel.
+Proof. exact e2e_sync. Qed.
+Print Assumptions C01_e2e_sync.
+
+Theorem C01_e2e_fsm : forall HO, hash_ok HO ->
+  forall (data : bytes HO) (bs : N) (q : ranges),
+  (blen HO data <= 2 ^ 63)%N -> (bs <= 10)%N -> wf_ranges q = true -> q <> [] ->
+  forall (stream : bytes HO) ys o st,
+  rd_run HO (rd_new HO (root_hash HO data) q (mkTree (blen HO data) bs) stream) = (ys, o, st) ->
+  is_prefix ys (honest HO data bs q) /\
+  (o = Finished -> ys = honest HO data bs q /\ stream = flat HO (honest HO data bs q) ++ Fsm.r_enc HO st) /\
+  (forall e, o = Failed e ->
+     ~ is_prefix (flat HO (firstn (length ys + 1) (honest HO data bs q))) stream) /\
+  o <> Panicked /\ o <> OutOfFuel.
+Proof. exact e2e_fsm. Qed.
+Print Assumptions C01_e2e_fsm.
+
+(* decode_ranges on EVERY stream, for any target and any outboard carrying the blob's root and tree:
+   the items applied (leaves written, parents saved, apply_items) are a prefix ys of the honest encoding;
+   the result is ranges_result of the saves and of the decoder's outcome o *)
+Theorem C01_e2e_decode_ranges : forall HO, hash_ok HO ->
+  forall (data : bytes HO) (bs : N) (q : ranges),
+  (blen HO data <= 2 ^ 63)%N -> (bs <= 10)%N -> wf_ranges q = true -> q <> [] ->
+  forall (stream target : bytes HO) (ob : outboard HO),
+  ob_root ob = root_hash HO data -> ob_tree ob = mkTree (blen HO data) bs ->
+  exists ys o st',
+    let a := apply_items HO ys target ob in
+    decode_ranges HO stream q target ob = (ranges_result (a_res HO a) o, a_target HO a, a_ob HO a, st') /\
+    is_prefix ys (honest HO data bs q) /\
+    (o = Finished -> ys = honest HO data bs q /\ is_prefix (flat HO (honest HO data bs q)) stream) /\
+    (forall e, o = Failed e ->
+       ~ is_prefix (flat HO (firstn (length ys + 1) (honest HO data bs q))) stream) /\
+    o <> Panicked /\ o <> OutOfFuel.
+Proof. exact e2e_decode_ranges. Qed.
+Print Assumptions C01_e2e_decode_ranges.
+
+Theorem C01_e2e_decode_ranges_fsm : forall HO, hash_ok HO ->
+  forall (data : bytes HO) (bs : N) (q : ranges),
+  (blen HO data <= 2 ^ 63)%N -> (bs <= 10)%N -> wf_ranges q = true -> q <> [] ->
+  forall (stream target : bytes HO) (ob : outboard HO),
+  ob_root ob = root_hash HO data -> ob_tree ob = mkTree (blen HO data) bs ->
+  exists ys o st',
+    let a := apply_items HO ys target ob in
+    decode_ranges_fsm HO stream q target ob = (ranges_result (a_res HO a) o, a_target HO a, a_ob HO a, st') /\
+    is_prefix ys (honest HO data bs q) /\
+    (o = Finished -> ys = honest HO data bs q /\ is_prefix (flat HO (honest HO data bs q)) stream) /\
+    (forall e, o = Failed e ->
+       ~ is_prefix (flat HO (firstn (length ys + 1) (honest HO data bs q))) stream) /\
+    o <> Panicked /\ o <> OutOfFuel.
+Proof. exact e2e_decode_ranges_fsm. Qed.
+Print Assumptions C01_e2e_decode_ranges_fsm.
+
+(* the returned target is the old target with the leaves of a prefix zs of the honest encoding written
+   into it (write_leaves, Proofs/BridgeLeaves.v; every such leaf is ILeaf (s*1024) (chunk_bytes data s e)
+   for a run [s,e) of selected chunks: Bridge_leaf_items); Ok means all honest leaves were written *)
+Theorem C01_e2e_decode_ranges_target : forall HO, hash_ok HO ->
+  forall (data : bytes HO) (bs : N) (q : ranges),
+  (blen HO data <= 2 ^ 63)%N -> (bs <= 10)%N -> wf_ranges q = true -> q <> [] ->
+  forall (stream target : bytes HO) (ob : outboard HO) res target' ob' st',
+  ob_root ob = root_hash HO data -> ob_tree ob = mkTree (blen HO data) bs ->
+  decode_ranges HO stream q target ob = (res, target', ob', st') ->
+  exists zs, is_prefix zs (honest HO data bs q) /\ target' = write_leaves HO target zs /\
+             (res = Ok tt -> zs = honest HO data bs q /\ is_prefix (flat HO (honest HO data bs q)) stream).
+Proof. exact e2e_decode_ranges_target. Qed.
+Print Assumptions C01_e2e_decode_ranges_target.
+
+Theorem C01_e2e_decode_ranges_fsm_target : forall HO, hash_ok HO ->
+  forall (data : bytes HO) (bs : N) (q : ranges),
+  (blen HO data <= 2 ^ 63)%N -> (bs <= 10)%N -> wf_ranges q = true -> q <> [] ->
+  forall (stream target : bytes HO) (ob : outboard HO) res target' ob' st',
+  ob_root ob = root_hash HO data -> ob_tree ob = mkTree (blen HO data) bs ->
+  decode_ranges_fsm HO stream q target ob = (res, target', ob', st') ->
+  exists zs, is_prefix zs (honest HO data bs q) /\ target' = write_leaves HO target zs /\
+             (res = Ok tt -> zs = honest HO data bs q /\ is_prefix (flat HO (honest HO data bs q)) stream).
+Proof. exact e2e_decode_ranges_fsm_target. Qed.
+Print Assumptions C01_e2e_decode_ranges_fsm_target.
+
+(* every byte written is the blob's, at the right offset: for a target of the blob's length, whatever the
+   stream and the result, every chunk of the returned target is either untouched or (selected and) the
+   blob's chunk; on Ok every selected chunk is the blob's and every other chunk is untouched *)
+Theorem C01_e2e_decode_ranges_bytes : forall HO, hash_ok HO ->
+  forall (data : bytes HO) (bs : N) (q : ranges),
+  (blen HO data <= 2 ^ 63)%N -> (bs <= 10)%N -> wf_ranges q = true -> q <> [] ->
+  forall (stream target : bytes HO) (ob : outboard HO) res target' ob' st',
+  ob_root ob = root_hash HO data -> ob_tree ob = mkTree (blen HO data) bs ->
+  length target = length data ->
+  decode_ranges HO stream q target ob = (res, target', ob', st') ->
+  length target' = length data /\
+  (forall c, (c < nchunks (blen HO data))%N ->
+     chunk_bytes HO target' c (c + 1) = chunk_bytes HO target c (c + 1) \/
+     (sel q (blen HO data) c = true /\ chunk_bytes HO target' c (c + 1) = chunk_bytes HO data c (c + 1))) /\
+  (res = Ok tt -> forall c, (c < nchunks (blen HO data))%N ->
+     chunk_bytes HO target' c (c + 1) =
+     if sel q (blen HO data) c then chunk_bytes HO data c (c + 1) else chunk_bytes HO target c (c + 1)).
+Proof. exact e2e_decode_ranges_bytes. Qed.
+Print Assumptions C01_e2e_decode_ranges_bytes.
+
+Theorem C01_e2e_decode_ranges_fsm_bytes : forall HO, hash_ok HO ->
+  forall (data : bytes HO) (bs : N) (q : ranges),
+  (blen HO data <= 2 ^ 63)%N -> (bs <= 10)%N -> wf_ranges q = true -> q <> [] ->
+  forall (stream target : bytes HO) (ob : outboard HO) res target' ob' st',
+  ob_root ob = root_hash HO data -> ob_tree ob = mkTree (blen HO data) bs ->
+  length target = length data ->
+  decode_ranges_fsm HO stream q target ob = (res, target', ob', st') ->
+  length target' = length data /\
+  (forall c, (c < nchunks (blen HO data))%N ->
+     chunk_bytes HO target' c (c + 1) = chunk_bytes HO target c (c + 1) \/
+     (sel q (blen HO data) c = true /\ chunk_bytes HO target' c (c + 1) = chunk_bytes HO data c (c + 1))) /\
+  (res = Ok tt -> forall c, (c < nchunks (blen HO data))%N ->
+     chunk_bytes HO target' c (c + 1) =
+     if sel q (blen HO data) c then chunk_bytes HO data c (c + 1) else chunk_bytes HO target c (c + 1)).
+Proof. exact e2e_decode_ranges_fsm_bytes. Qed.
+Print Assumptions C01_e2e_decode_ranges_fsm_bytes.
+
+(* what the leaves of any prefix of the honest encoding do to a target of the blob's length *)
+Theorem C01_e2e_prefix_writes : forall HO (data : bytes HO) (bs : N) (q : ranges),
+  (blen HO data <= 2 ^ 63)%N ->
+  forall (target : bytes HO) zs, length target = length data -> is_prefix zs (honest HO data bs q) ->
+  let out := write_leaves HO target zs in
+  length out = length data /\
+  forall c, (c < nchunks (blen HO data))%N ->
+    chunk_bytes HO out c (c + 1) = chunk_bytes HO target c (c + 1) \/
+    (sel q (blen HO data) c = true /\ chunk_bytes HO out c (c + 1) = chunk_bytes HO data c (c + 1)).
+Proof. exact e2e_prefix_writes. Qed.
+Print Assumptions C01_e2e_prefix_writes.
